@@ -358,18 +358,29 @@ structure FileView where
   headOk : Bool
   deriving Repr, DecidableEq
 
+/-- key stored in slot `i` (`[]` outside the array) -/
+def keyOf (es : List Entry) (i : Nat) : Key :=
+  match es[i]? with
+  | some e => e.ekey
+  | none => []
+
+/-- does slot `i` hold `LruFileEntry::empty()`? -/
+def emptyAt (es : List Entry) (i : Nat) : Bool :=
+  match es[i]? with
+  | some e => e == Entry.empty
+  | none => false
+
 /-- what a header + entry array say when read as a doubly linked list; `none` = the `next` walk
 leaves the array or does not end. -/
 def viewOf (h : Header) (es : List Entry) : Option FileView :=
   match slotWalk es (es.length + 1) h.tail with
   | none => none
   | some L =>
-    let marks : Array Bool := L.foldl (fun a i => a.setIfInBounds i true) (Array.replicate es.length false)
-    let unlinked := (es.zipIdx.filter (fun p => !(marks.getD p.2 false))).map (·.1)
+    let unlinked := (List.range es.length).filter (fun i => !L.contains i)
     some { entries := es.length,
-           linked := L.map (fun i => match es[i]? with | some e => e.ekey | none => []),
-           free := (unlinked.filter (· == Entry.empty)).length,
-           stale := (unlinked.filter (· != Entry.empty)).length,
+           linked := L.map (keyOf es),
+           free := (unlinked.filter (emptyAt es)).length,
+           stale := (unlinked.filter (fun i => !emptyAt es i)).length,
            prevOk := prevOk es SENT L,
            headOk := h.head == L.getLastD SENT }
 
